@@ -1581,7 +1581,12 @@ class Evaluator(object):
             return built
         t = self.apply(fn, args, kw)
         callee = tm.callee_name(fn)
-        self.site("call", node, callee=callee, fn=fn, base=None, args=args, kw=kw, term=t, via_filter=via_filter, method=None)
+        if fn is not None and fn.op == "ext" and t.op == "call" and t.a[0].op == "ext" and tm.callee_name(t.a[0]) != callee and not via_filter:
+            # a library call that the term algebra spells differently (np.concatenate((np.atleast_2d(r), A), axis=0) is
+            # np.vstack((r, A)); np.add.reduce(x) is np.sum(x)) is recorded under its canonical spelling
+            self.site("call", node, callee=tm.callee_name(t.a[0]), fn=t.a[0], base=None, args=tuple(t.a[1]), kw=tuple(t.a[2]), term=t, via_filter=False, method=None)
+        else:
+            self.site("call", node, callee=callee, fn=fn, base=None, args=args, kw=kw, term=t, via_filter=via_filter, method=None)
         # in-place library calls
         outt = None
         for k_, v_ in kw:
